@@ -94,8 +94,14 @@ func (t *Tokenizer) TokenizeWithLimits(limits TokenizerLimits, input *ast.Input)
 			lastWasSpread = true
 		case keyword.IDENT:
 			key := identkeyword.KeywordFromLiteral(input.ByteSlice(next.Literal))
+			startsDefinition := false
 			switch key {
 			case identkeyword.FRAGMENT, identkeyword.QUERY, identkeyword.MUTATION, identkeyword.SUBSCRIPTION:
+				// inside a selection set these words are ordinary names (e.g. a field called "query")
+				startsDefinition = localDepth <= 0
+			}
+			switch {
+			case startsDefinition:
 				// When starting a new operation or fragment, add the local depth peak
 				// to global depth and reset local tracking
 				globalDepth += localDepthPeak
